@@ -162,7 +162,7 @@ var orderChooser Chooser
 // MapPoints counts the range points passed since the last SetOrderChooser.
 var MapPoints int
 
-// MaxPermKeys: maps with more keys are iterated in canonical order only.
+// MaxPermKeys: maps with more keys are iterated in four orders only (canonical, reversed, two rotations).
 var MaxPermKeys = 4
 
 func SetOrderChooser(c Chooser) {
@@ -184,7 +184,25 @@ func sortedKeys[M ~map[K]V, K comparable, V any](m M) []K {
 func MapOrder[M ~map[K]V, K comparable, V any](m M) []K {
 	keys := sortedKeys[M, K, V](m)
 	c := orderChooser
-	if c == nil || len(keys) < 2 || len(keys) > MaxPermKeys {
+	if c == nil || len(keys) < 2 {
+		return keys
+	}
+	if len(keys) > MaxPermKeys {
+		// too many keys for all permutations: the canonical order, its reverse, and the two rotations
+		// by one (so that "the first k" and "the last one" are different keys in different orders)
+		MapPoints++
+		switch c.ChooseW(4, []int{0, 1, 1, 1}) {
+		case 1:
+			out := make([]K, len(keys))
+			for i, k := range keys {
+				out[len(keys)-1-i] = k
+			}
+			return out
+		case 2:
+			return append(append([]K{}, keys[1:]...), keys[0])
+		case 3:
+			return append([]K{keys[len(keys)-1]}, keys[:len(keys)-1]...)
+		}
 		return keys
 	}
 	MapPoints++
